@@ -141,6 +141,31 @@ def h12c_insert_after_merge(r0, r1, start, at_end):
     assert mm.merge_cells() == [(m0, c0)]
 
 
+def h12f_columns_after_merge(r0, r1, c1, count):
+    """columns appended to the right of a merged rectangle: the rectangle stays what it was and the new cells are plain"""
+    R = 3
+    C = 3
+    t = make_table(R, C)
+    assume(0 <= r0 <= r1 < R and 0 <= c1 < C and not (r0 == r1 and c1 == 0))
+    assume(1 <= count <= 2)
+    r0, r1, c1, count = concretize(r0), concretize(r1), concretize(c1), concretize(count)
+    a = xl_range(r0, 0, r1, c1)                      # the rectangle touches the left-most column(s)
+    t.merge_cells(a)
+    t.add_column(count)
+    assert t.num_cols == C + count
+    assert t.merge_ranges == [a]
+    for r in range(R):
+        for c in range(C + count):
+            cell = t.cell(r, c)
+            inside = r0 <= r <= r1 and c <= c1
+            if inside and not (r == r0 and c == 0):
+                assert isinstance(cell, MergedCell) and cell.rect == (r0, 0, r1, c1)
+            elif inside:
+                assert cell.is_merged and cell.size == (r1 - r0 + 1, c1 + 1)
+            else:
+                assert not isinstance(cell, MergedCell) and not cell.is_merged
+
+
 # ---------------------------------------------------------------------------------- merge map codec
 class Rec:
     def __init__(self, **kw):
@@ -271,6 +296,8 @@ HARNESSES = [
                                         read_first=BoolDom()),
             bounds="every ordered pair of disjoint rectangles in a 3x3 table merged one after the other; merge_ranges read "
                    "before the first merge (or not), after the first and twice after the second"),
+    Harness("H12f", h12f_columns_after_merge, dict(r0=IntDom(), r1=IntDom(), c1=IntDom(), count=IntDom()),
+            bounds="3x3 table, every rectangle that starts in column A, 1..2 columns appended (no default value)"),
     Harness("H12c", h12c_insert_after_merge, dict(r0=IntDom(), r1=IntDom(), start=IntDom(), at_end=BoolDom()),
             bounds="3x2 table, full-width merged rectangle of any row span, one row inserted at any index before/after it or at the end"),
     Harness("H12b", h12b_codec, dict(r0=BVDom(20), c0=BVDom(10), nr=BVDom(2), nc=BVDom(2), slack_r=BoolDom(), slack_c=BoolDom()),
